@@ -272,8 +272,20 @@ AGG_RE = re.compile(r"^addAgg (sum|avg|max|min|last|count|delta|derive|stdev) ((
 DEST_RE = re.compile(r"^addRoute (sendAllMatch|sendFirstMatch|consistentHashing) (\S+) ((?:(?:regex|prefix|sub)=\S+ )*) (.+)$")
 
 
+GN_RE = re.compile(r"^addRoute grafanaNet gn prefix=foo  http://@SINK@/metrics apikey @DIR@/storage-schemas\.conf @DIR@/storage-aggregation\.conf((?: (?:concurrency|bufSize|flushMaxNum|flushMaxWait|timeout|orgId|errBackoffMin)=\d+)*)$")
+GN_DEFAULTS = {"concurrency": 100, "bufSize": 10000000, "flushMaxNum": 5000, "flushMaxWait": 500, "timeout": 10000, "orgId": 1, "errBackoffMin": 100}
+
+
 def parse_cmd(cmd):
-    """-> ('agg', has_regex, interval, wait) | ('route', type, [ {opt: int} per dest ]) | None when the command is not one the model describes"""
+    """-> ('agg', has_regex, interval, wait) | ('route', type, [ {opt: int} per dest ]) | ('gn', {opt: int}) |
+    None when the command is not one the model describes"""
+    m = GN_RE.match(cmd)
+    if m:
+        o = dict(GN_DEFAULTS)
+        for t in m.group(1).split():
+            k, v = t.split("=")
+            o[k] = int(v)
+        return ("gn", o)
     m = AGG_RE.match(cmd)
     if m:
         return ("agg", "regex=" in m.group(2), int(m.group(4)), int(m.group(5)))
@@ -321,7 +333,13 @@ def sub_coq(sub, r):
         if i >= len(resp) or resp[i] == "":
             continue
         acc = resp[i] == "ok"
-        if p[0] == "agg":
+        if p[0] == "gn":
+            o = p[1]
+            items.append("(PGn {| g_concurrency := %s; g_bufsize := %s; g_flushmaxnum := %s; g_flushmaxwait := %s; g_timeout := %s; "
+                         "g_orgid := %s; g_backoffmin := %s |}, %s)"
+                         % (cZ(o["concurrency"]), cZ(o["bufSize"]), cZ(o["flushMaxNum"]), cZ(o["flushMaxWait"]), cZ(o["timeout"]), cZ(o["orgId"]),
+                            cZ(o["errBackoffMin"]), cbool(acc)))
+        elif p[0] == "agg":
             items.append("(PAgg %s %s %s, %s)" % (cbool(p[1]), cZ(p[2]), cZ(p[3]), cbool(acc)))
         else:
             ds = clist(["{| o_flush := %s; o_reconn := %s; o_connbuf := %s; o_iobuf := %s; o_spool := %s; o_spoolbuf := %s; o_maxbytes := %s; "
